@@ -192,6 +192,15 @@ theorem c11_sprintf2 (hc : CfgOK c) (hw : WFW c cu w) (a : List Byte) (v : Nat) 
   obtain ⟨s', h1, rfl, rfl⟩ := mutS_inv h
   exact c11_mut rfl (sprintf_abs hc hw.1 _ h1)
 
+/-- the `%ls` / `%.*ls` / `%lc` formats, for both outcomes of the formatter (no hypothesis: the specification of the
+    failing case is the empty string) -/
+theorem c11_sprintfW (hc : CfgOK c) (hw : WFW c cu w) (a : List Byte) (wa : WArg) (v : Nat) (b : List Byte) :
+    C11Holds c cu w (.sprintfW a wa v b) := by
+  intro w' o h
+  simp only [step] at h
+  obtain ⟨s', h1, rfl, rfl⟩ := mutS_inv h
+  exact c11_mut rfl (sprintfF_abs hc hw.1 _ h1)
+
 
 /-! ### replace -/
 
